@@ -654,6 +654,68 @@ Proof. destruct 1; constructor; assumption. Qed.
 Theorem escape_line_one pre t ls st : TV st -> LTV ls -> eone t ls st (parse_loop c (pre ++ dashdash :: t) ls st).
 Proof. intros H1 H2. exact (esim_left _ _ _ _ _ _ (escape_line_sim pre t t ls st H1 H2)). Qed.
 
+(** * Round 3: levels WITH hyphen-accepting arguments.
+
+    Without the hypothesis "no argument of the level accepts hyphen values" the loop over
+    [pre ++ -- :: t] has exactly one more outcome: it reaches the [--] -- in a state that does not
+    depend on the tail -- while an argument that accepts hyphen values is still being collected
+    ([ParseState::Opt]/[ParseState::Pos] of such an argument): the documented exception, the [--] is
+    then one more value of that argument.  In every other case the [--] is recognised, whatever other
+    hyphen-accepting arguments the level declares. *)
+Lemma escape_sim_h s1 s2 ls st : l_trailing ls = false ->
+  (exists x, parse_loop c (dashdash :: s1) ls st = RPanic x /\ parse_loop c (dashdash :: s2) ls st = RPanic x) \/
+  (parse_loop c (dashdash :: s1) ls st = parse_loop c s1 (esc_ls ls) (esc_st st) /\
+   parse_loop c (dashdash :: s2) ls st = parse_loop c s2 (esc_ls ls) (esc_st st)) \/
+  (exists a, state_arg c (l_pst ls) = ROk (Some a) /\ a_hyphen a = true).
+Proof.
+  intros Htr.
+  assert (Hsub : sub_hit c dashdash ls = None).
+  { unfold sub_hit. destruct (_ || _); [apply Hdd|reflexivity]. }
+  destruct (state_arg c (l_pst ls)) as [sa|e0 s0|n0] eqn:Esa.
+  - destruct (hyphen_pending sa) eqn:Hh.
+    + right. right. destruct sa as [a|]; [|discriminate]. exists a. split; [reflexivity|exact Hh].
+    + right. left. split; apply (escape_recognised c _ ls st sa Htr Hsub Esa Hh).
+  - exfalso. destruct (l_pst ls) as [|i|i]; cbn [state_arg] in Esa; try discriminate;
+      (destruct (find_arg c i); cbn [expect rbind] in Esa; discriminate).
+  - left. exists n0. destruct ls as [pst pc vaf tr]. cbn [l_trailing l_pst l_pos l_vaf] in *. subst tr.
+    unfold sub_hit in Hsub. cbn [l_pst l_vaf] in Hsub.
+    split; cbn [parse_loop l_trailing l_pos l_vaf l_pst]; rewrite Hsub; change (is_escape dashdash) with true; cbv iota;
+      rewrite Esa; reflexivity.
+Qed.
+
+(** the exception: both lines stand at the [--], not in trailing mode, in ONE state [(ls', st')], and the
+    argument being collected there accepts hyphen values *)
+Definition hyphen_exception (t1 t2 : list bytes) (ls : lstate) (st : ps) (R1 R2 : res loop_res) : Prop :=
+  exists ls' st' a, TV st' /\ LTV ls' /\ mt_sub (mt st') = mt_sub (mt st) /\ l_trailing ls' = false /\
+    state_arg c (l_pst ls') = ROk (Some a) /\ a_hyphen a = true /\
+    R1 = parse_loop c (dashdash :: t1) ls' st' /\ R2 = parse_loop c (dashdash :: t2) ls' st'.
+
+Theorem escape_line_sim_h pre t1 t2 ls st : TV st -> LTV ls ->
+  esim t1 t2 ls st (parse_loop c (pre ++ dashdash :: t1) ls st) (parse_loop c (pre ++ dashdash :: t2) ls st)
+  \/ hyphen_exception t1 t2 ls st (parse_loop c (pre ++ dashdash :: t1) ls st) (parse_loop c (pre ++ dashdash :: t2) ls st).
+Proof.
+  intros HTV HLTV.
+  pose proof (prefix_sim pre (dashdash :: t1) (dashdash :: t2) ls st eq_refl HTV HLTV) as Hp.
+  remember (parse_loop c (pre ++ dashdash :: t1) ls st) as R1 eqn:E1.
+  remember (parse_loop c (pre ++ dashdash :: t2) ls st) as R2 eqn:E2.
+  destruct Hp as [ls' st' Hg|e st'|x|n k v st' r HT'|r st'|tk r st' HT'].
+  - destruct Hg as (G1 & G2 & G3 & G4 & G5).
+    destruct (l_trailing ls') eqn:Etr.
+    + left. apply (ES_trailing t1 t2 ls st [dashdash] ls' st' Etr G1 G4 G5).
+    + destruct (escape_sim_h t1 t2 ls' st' Etr) as [[x [-> ->]]|[[-> ->]|[a [Ha Hh]]]].
+      * left. apply ES_panic.
+      * left. apply (ES_trailing t1 t2 ls st [] (esc_ls ls') (esc_st st')); [reflexivity|apply TV_start_trailing; exact G1|exact G4|].
+        rewrite <- G5. unfold esc_st. change (mt (st' <| mt := start_trailing (mt st') |>)) with (start_trailing (mt st')).
+        unfold start_trailing. destruct (mt_pending (mt st')); reflexivity.
+      * right. exists ls', st', a. split; [exact G1|]. split; [exact G2|]. split; [exact G5|]. split; [exact Etr|].
+        split; [exact Ha|]. split; [exact Hh|]. split; reflexivity.
+  - left. apply ES_err.
+  - left. apply ES_panic.
+  - left. apply ES_sub. exact HT'.
+  - left. apply ES_help.
+  - left. apply ES_ext. exact HT'.
+Qed.
+
 (** * No help/version outcome is caused by a token of the tail *)
 Hypothesis WD : forall a, In a (c_args c) -> display_action a = true -> a_takes_value a = false.
 
